@@ -34,25 +34,63 @@ func (e *Engine) clauseOfPred(fn *ssa.Function, pred string) (*Contract, *Clause
 	return nil, nil
 }
 
-// modSet computes the heap components that may be written inside the loop.
+// modSet computes the heap components in which the loop may write objects that
+// already exist when an iteration starts. Writes to objects allocated inside the
+// iteration (fresh backing arrays of append, composite literals, locals) need no
+// havoc: such objects get references that are new in every iteration.
 func (e *Engine) modSet(fr *frame, li *loopInfo) (keys map[string]bool, all bool) {
 	keys = map[string]bool{}
-	seen := map[*ssa.Function]bool{}
-	var scanFn func(fn *ssa.Function)
-	var scanIns func(ins ssa.Instruction)
-	addType := func(root types.Type, pathPrefix string) {
-		// every component whose key starts with the root type key (coarse but sound)
-		k := typeKey(root)
-		keys["T:"+k] = true
-		_ = pathPrefix
+	type fnKey struct {
+		fn    *ssa.Function
+		fresh string
 	}
-	scanIns = func(ins ssa.Instruction) {
+	seen := map[fnKey]bool{}
+	// isFreshRoot: does the pointer/slice/map value v denote an object allocated inside
+	// the current iteration (syntactic provenance)? paramFresh gives the answer for the
+	// parameters of an inlined callee.
+	var isFreshRoot func(v ssa.Value, inLoop func(ssa.Instruction) bool, paramFresh map[*ssa.Parameter]bool, depth int) bool
+	isFreshRoot = func(v ssa.Value, inLoop func(ssa.Instruction) bool, paramFresh map[*ssa.Parameter]bool, depth int) bool {
+		if depth > 20 {
+			return false
+		}
+		switch x := v.(type) {
+		case *ssa.Alloc:
+			return inLoop(x)
+		case *ssa.MakeSlice:
+			return inLoop(x)
+		case *ssa.MakeMap:
+			return inLoop(x)
+		case *ssa.FieldAddr:
+			return isFreshRoot(x.X, inLoop, paramFresh, depth+1)
+		case *ssa.IndexAddr:
+			return isFreshRoot(x.X, inLoop, paramFresh, depth+1)
+		case *ssa.Slice:
+			return isFreshRoot(x.X, inLoop, paramFresh, depth+1)
+		case *ssa.ChangeType:
+			return isFreshRoot(x.X, inLoop, paramFresh, depth+1)
+		case *ssa.Convert:
+			if _, ok := under(x.Type()).(*types.Slice); ok {
+				return inLoop(x) // []byte(string) allocates
+			}
+			return false
+		case *ssa.Call:
+			if b, ok := x.Call.Value.(*ssa.Builtin); ok && b.Name() == "append" {
+				return inLoop(x)
+			}
+			return false
+		case *ssa.Parameter:
+			return paramFresh != nil && paramFresh[x]
+		}
+		return false
+	}
+	var scanFn func(fn *ssa.Function, paramFresh map[*ssa.Parameter]bool)
+	var scanIns func(ins ssa.Instruction, inLoop func(ssa.Instruction) bool, paramFresh map[*ssa.Parameter]bool)
+	scanIns = func(ins ssa.Instruction, inLoop func(ssa.Instruction) bool, paramFresh map[*ssa.Parameter]bool) {
 		switch x := ins.(type) {
 		case *ssa.Store:
-			pt := x.Addr.Type().(*types.Pointer).Elem()
-			// the written location is a field/element of some root object; we do not know
-			// the root statically in general, so record the leaf type and let the
-			// matcher select every component that can hold such a location
+			if isFreshRoot(x.Addr, inLoop, paramFresh, 0) {
+				return
+			}
 			switch a := x.Addr.(type) {
 			case *ssa.FieldAddr:
 				st := a.X.Type().(*types.Pointer).Elem()
@@ -65,39 +103,29 @@ func (e *Engine) modSet(fr *frame, li *loopInfo) (keys map[string]bool, all bool
 					keys["T:"+typeKey(xt.Elem())] = true
 				}
 			default:
-				addType(pt, "")
+				keys["T:"+typeKey(x.Addr.Type().(*types.Pointer).Elem())] = true
 			}
 		case *ssa.MapUpdate:
+			if isFreshRoot(x.Map, inLoop, paramFresh, 0) {
+				return
+			}
 			keys["T:"+typeKey(under(x.Map.Type()))] = true
 			keys["T:"+typeKey(x.Map.Type())] = true
-		case *ssa.Alloc:
-			addType(x.Type().(*types.Pointer).Elem(), "")
-		case *ssa.MakeSlice:
-			keys["T:"+typeKey(types.NewSlice(under(x.Type()).(*types.Slice).Elem()))] = true
-		case *ssa.MakeMap:
-			keys["T:"+typeKey(x.Type())] = true
-			keys["T:"+typeKey(under(x.Type()))] = true
-		case *ssa.Convert:
-			if sl, ok := under(x.Type()).(*types.Slice); ok {
-				keys["T:"+typeKey(types.NewSlice(sl.Elem()))] = true
-			}
-		case *ssa.Slice:
-			if pt, ok := under(x.X.Type()).(*types.Pointer); ok {
-				if at, ok := under(pt.Elem()).(*types.Array); ok {
-					keys["T:"+typeKey(types.NewSlice(at.Elem()))] = true
-				}
-			}
 		case ssa.CallInstruction:
 			cc := x.Common()
 			if b, ok := cc.Value.(*ssa.Builtin); ok {
 				switch b.Name() {
-				case "append", "copy":
-					if st, ok := under(cc.Args[0].Type()).(*types.Slice); ok {
-						keys["T:"+typeKey(types.NewSlice(st.Elem()))] = true
+				case "copy":
+					if !isFreshRoot(cc.Args[0], inLoop, paramFresh, 0) {
+						if st, ok := under(cc.Args[0].Type()).(*types.Slice); ok {
+							keys["T:"+typeKey(types.NewSlice(st.Elem()))] = true
+						}
 					}
 				case "delete":
-					keys["T:"+typeKey(under(cc.Args[0].Type()))] = true
-					keys["T:"+typeKey(cc.Args[0].Type())] = true
+					if !isFreshRoot(cc.Args[0], inLoop, paramFresh, 0) {
+						keys["T:"+typeKey(under(cc.Args[0].Type()))] = true
+						keys["T:"+typeKey(cc.Args[0].Type())] = true
+					}
 				}
 				return
 			}
@@ -108,14 +136,12 @@ func (e *Engine) modSet(fr *frame, li *loopInfo) (keys map[string]bool, all bool
 				}
 			}
 			if f == nil {
-				// dynamic call: interface method or function value. Resolve single implementations.
 				if cc.IsInvoke() {
-					impls := e.implementations(cc.Value.Type())
-					for _, t := range impls {
+					for _, t := range e.implementations(cc.Value.Type()) {
 						ms := e.w.Prog.MethodSets.MethodSet(t)
 						if s := ms.Lookup(cc.Method.Pkg(), cc.Method.Name()); s != nil {
 							if mf := e.w.Prog.MethodValue(s); mf != nil {
-								scanFn(mf)
+								scanFn(mf, nil)
 							}
 						}
 					}
@@ -124,7 +150,9 @@ func (e *Engine) modSet(fr *frame, li *loopInfo) (keys map[string]bool, all bool
 			}
 			name := fullName(f)
 			if strings.HasPrefix(name, "(encoding/binary.littleEndian).Put") {
-				keys["T:"+typeKey(types.NewSlice(types.Typ[types.Uint8]))] = true
+				if !isFreshRoot(cc.Args[1], inLoop, paramFresh, 0) {
+					keys["T:"+typeKey(types.NewSlice(types.Typ[types.Uint8]))] = true
+				}
 				return
 			}
 			if c := e.w.contractFor(f); c != nil && len(c.byKind("ensures")) > 0 && !c.Options["inline"] {
@@ -139,27 +167,44 @@ func (e *Engine) modSet(fr *frame, li *loopInfo) (keys map[string]bool, all bool
 				return
 			}
 			if e.inlinable(f) && len(f.Blocks) > 0 {
-				scanFn(f)
+				pf := map[*ssa.Parameter]bool{}
+				for i, p := range f.Params {
+					if i < len(cc.Args) && isFreshRoot(cc.Args[i], inLoop, paramFresh, 0) {
+						pf[p] = true
+					}
+				}
+				scanFn(f, pf)
 			}
 		}
 	}
-	scanFn = func(fn *ssa.Function) {
-		if seen[fn] {
+	scanFn = func(fn *ssa.Function, paramFresh map[*ssa.Parameter]bool) {
+		sig := ""
+		for _, p := range fn.Params {
+			if paramFresh[p] {
+				sig += "1"
+			} else {
+				sig += "0"
+			}
+		}
+		k := fnKey{fn, sig}
+		if seen[k] {
 			return
 		}
-		seen[fn] = true
+		seen[k] = true
+		all := func(ssa.Instruction) bool { return true } // everything in a callee happens inside the iteration
 		for _, b := range fn.Blocks {
 			for _, ins := range b.Instrs {
-				scanIns(ins)
+				scanIns(ins, all, paramFresh)
 			}
 		}
 		for _, af := range fn.AnonFuncs {
-			scanFn(af)
+			scanFn(af, nil)
 		}
 	}
+	inThisLoop := func(ins ssa.Instruction) bool { return li.blocks[ins.Block()] }
 	for b := range li.blocks {
 		for _, ins := range b.Instrs {
-			scanIns(ins)
+			scanIns(ins, inThisLoop, nil)
 		}
 	}
 	return keys, false
@@ -207,6 +252,27 @@ func (e *Engine) evalGhostAt(fr *frame, li *loopInfo, c *ssa.Call, phis map[ssa.
 	e.guard = "true"
 	defer func() { e.pure = savePure; e.guard = saveGuard }()
 	h := heap.clone()
+	// the header's own pure instructions (range index increment, loop condition operands)
+	for _, ins := range li.header.Instrs {
+		switch x := ins.(type) {
+		case *ssa.BinOp, *ssa.UnOp, *ssa.FieldAddr, *ssa.IndexAddr, *ssa.Field, *ssa.Convert, *ssa.ChangeType, *ssa.Extract, *ssa.Slice, *ssa.Lookup:
+			func() {
+				defer func() { recover() }()
+				st := &blockState{}
+				e.execInstr(sub, li.header, x, "true", h, st)
+			}()
+		case *ssa.Call:
+			if e.isPureCall(x) {
+				if _, isG := isGhostInv(x); !isG {
+					func() {
+						defer func() { recover() }()
+						st := &blockState{}
+						e.execInstr(sub, li.header, x, "true", h, st)
+					}()
+				}
+			}
+		}
+	}
 	// evaluate, on demand, the pure cone of the call's arguments
 	var need func(v ssa.Value) Val
 	need = func(v ssa.Value) Val {
@@ -300,11 +366,46 @@ func (e *Engine) enterLoop(fr *frame, li *loopInfo, reach string, heap Heap, con
 		}
 	}
 	e.loopMods(li, keys)
+	// allocation base of the loop body: above every reference that exists at the loop head
+	li.base = e.sc.declare("loopbase", SRef)
+	lo := bvLit(0x90000000, 32)
+	if e.lastLoopBase != "" {
+		lo = app("bvadd", e.lastLoopBase, bvLit(0x10000, 32))
+	}
+	e.sc.assume(and(app("bvuge", li.base, lo), app("bvule", li.base, bvLit(0xF0000000, 32))))
+	if e.allocBase != "" {
+		// nested loop: above the enclosing iteration's allocations so far
+		e.sc.assume(app("bvugt", li.base, app("bvadd", e.allocBase, bvLit(0x8000, 32))))
+	}
+	e.lastLoopBase = li.base
 	hv := map[ssa.Value]Val{}
 	for _, phi := range phis {
 		v := e.freshVal(phi.Type(), "loop_"+phi.Comment+"_"+phi.Name())
+		if sv, ok := v.(SliceVal); ok && sliceOffZero(phi, map[ssa.Value]bool{}) {
+			// every value this slice variable can take starts at offset 0 of its backing array
+			v = SliceVal{sv.Arr, bvLit(0, 64), sv.Len}
+		}
+		e.assumeBelow(v, phi.Type(), li.base)
 		hv[phi] = v
 		fr.vals[phi] = v
+	}
+	// structural invariant of go/ssa's range-over-slice lowering: the index phi k
+	// satisfies -1 <= k < len (k+1 is the number of completed iterations)
+	for _, phi := range phis {
+		if phi.Comment == "rangeindex" {
+			for _, ins := range hdr.Instrs {
+				if bo, ok := ins.(*ssa.BinOp); ok && bo.Op == token.LSS {
+					if inc, ok := bo.X.(*ssa.BinOp); ok && inc.X == phi {
+						if lenv, ok := fr.vals[bo.Y]; ok {
+							k := e.scalar(hv[phi]).T
+							l := e.scalar(lenv).T
+							e.sc.assume(and(app("bvsge", k, bvLit(^uint64(0), 64)), app("bvslt", k, l), app("bvsge", l, bvLit(0, 64))))
+							e.warnOnce("range-over-slice loops: the index bounds -1 <= k < len are assumed as a structural invariant of the SSA lowering")
+						}
+					}
+				}
+			}
+		}
 	}
 	hreach := e.sc.declare("r_loop", SBool)
 	// the loop head is reached only if the loop was entered
@@ -440,4 +541,57 @@ func (e *Engine) closeLoop(fr *frame, li *loopInfo, tail *ssa.BasicBlock, succId
 			e.warn("loop at %s has no decreases clause: termination not proved", e.posOf(firstPos(hdr)))
 		}
 	}
+}
+
+// assumeBelow: every reference directly held by v existed before the iteration.
+func (e *Engine) assumeBelow(v Val, t types.Type, base string) {
+	switch x := v.(type) {
+	case Sc:
+		if x.S == SRef && bitsOf(t) == 0 {
+			e.sc.assume(app("bvult", x.T, base))
+		}
+	case StructVal:
+		st := under(t).(*types.Struct)
+		for i, f := range x.F {
+			e.assumeBelow(f, st.Field(i).Type(), base)
+		}
+	case SliceVal:
+		e.sc.assume(app("bvult", x.Arr, base))
+	case IfaceVal:
+		e.sc.assume(app("bvult", x.Ref, base))
+	}
+}
+
+// sliceOffZero: every value that can flow into v is a slice that starts at offset
+// 0 of its backing array (nil, make, append results, or a phi of such).
+func sliceOffZero(v ssa.Value, seen map[ssa.Value]bool) bool {
+	if seen[v] {
+		return true
+	}
+	seen[v] = true
+	switch x := v.(type) {
+	case *ssa.Const:
+		return x.Value == nil
+	case *ssa.MakeSlice:
+		return true
+	case *ssa.Call:
+		if b, ok := x.Call.Value.(*ssa.Builtin); ok && b.Name() == "append" {
+			return true
+		}
+	case *ssa.Phi:
+		for _, e := range x.Edges {
+			if !sliceOffZero(e, seen) {
+				return false
+			}
+		}
+		return true
+	case *ssa.Slice:
+		if x.Low == nil {
+			if _, ok := under(x.X.Type()).(*types.Pointer); ok {
+				return true
+			}
+			return sliceOffZero(x.X, seen)
+		}
+	}
+	return false
 }
